@@ -69,6 +69,10 @@ def _dm_for(z, rnd):
     return pb.DM(want / spread)
 
 
+def _to_f4(x):
+    return np.real(x).astype(np.float32)
+
+
 def driver_ops(zn, rnd):
     """operations applicable to signal zn: list of (name for the trace spec, a, callable, fft?)"""
     ops = []
@@ -102,6 +106,11 @@ def driver_ops(zn, rnd):
     ops.append(("ufunc", [], lambda z: z + z, False))
     ops.append(("ufunc", [], lambda z: np.multiply(z, np.arange(1, z.shape[-1] + 1, dtype=z.dtype)), False))
     ops.append(("map_blocks", [], lambda z: dr.mb_elem(z), False))
+    # functions whose output dtype differs from the input dtype: the lazy result must announce the
+    # dtype the NumPy path produces (and keep it across compute)
+    ops.append(("map_blocks", [], lambda z: pb.signal_transform(np.abs)(z, signal_type=pb.Signal), False))
+    ops.append(("map_blocks", [], lambda z: pb.signal_transform(_to_f4)(z, signal_type=pb.Signal), False))
+    ops.append(("map_blocks", [], lambda z: pb.signal_transform(np.isfinite)(z, signal_type=pb.Signal), False))
     ops.append(("rechunk", [], lambda z: z.rechunk(), False))
     ops.append(("to_dask", [], lambda z: z.to_dask_array(), False))
     if zn.ndim >= 2:
@@ -121,6 +130,12 @@ def driver_ops(zn, rnd):
                 ref = rnd.choice([None, zn.max_freq, zn.min_freq])
                 ops.append(("coh_dd", [], (lambda dm, ref: (lambda z: pb.coherent_dedispersion(z, dm, ref_freq=ref)))(dm, ref), True))
                 ops.append(("coh_dd", [], (lambda dm: (lambda z: pb.coherent_dedispersion(z, dm, chirp=dm.chirp_from_signal(z))))(dm), True))
+                # the same geometry dedispersed with ANOTHER DM first, in the same process: nothing of the
+                # first call (chirp, graph keys) may leak into the second
+                ops.append(("coh_dd", [], (lambda dm, ref: (lambda z: (pb.coherent_dedispersion(z, dm * 3.5, ref_freq=ref),
+                                                                        pb.coherent_dedispersion(z, dm, ref_freq=ref))[1]))(dm, ref), True))
+                ops.append(("incoh_dd", [], (lambda dm: (lambda z: (pb.incoherent_dedispersion(z, dm * 15),
+                                                                   pb.incoherent_dedispersion(z, dm * 40))[1]))(dm), False))
     if isinstance(zn, pb.BasebandSignal):
         ops.append(("to_intensity", [], lambda z: z.to_intensity(), False))
         fs = rnd.choice([0.2, -0.31, 1.0]) * zn.sample_rate / N * rnd.choice([1, 3])
@@ -177,6 +192,9 @@ def run_driver(n, rnd, schedules, out):
             continue
         out.events.append(dr.event(evname, kind, a, False, pre, dr.summary(rd), s0, s1, t0, t1))
         out.note("driver_op:" + name)
+        if kind != "container" and (rd.dtype != rn.dtype or rd.shape != rn.shape or type(rd) is not type(rn)):
+            out.viol.append(("lazy-announce:%s" % name, "lazy result announces %s %s %s, NumPy path gives %s %s %s | %s"
+                             % (type(rd).__name__, rd.shape, rd.dtype, type(rn).__name__, rn.shape, rn.dtype, what)))
         sch = schedules[i % len(schedules)]
         if not isinstance(rd.data, da.Array):
             got = rd
@@ -285,19 +303,46 @@ def run_concat(n, rnd, out):
 
 # ------------------------------------------------------------------ readers
 class CountingReader(pb.readers.BaseReader):
-    """A reader whose _read_array counts its calls (the sentinel of a dask read)."""
+    """A reader whose _read_array counts its calls (the sentinel of a dask read).  `salt` makes two readers
+    of identical geometry hold different content (like two files of one observation)."""
     calls = 0
     lock = threading.Lock()
 
-    def __init__(self, shape, dtype, **kw):
+    def __init__(self, shape, dtype, salt=0, **kw):
         super().__init__(shape=shape, dtype=dtype, **kw)
+        self.salt = salt
 
     def _read_array(self, offset, n, /, **kwargs):
         with CountingReader.lock:
             CountingReader.calls += 1
         x = np.arange(offset, offset + n, dtype=np.float64).reshape((-1,) + (1,) * (self.ndim - 1))
         x = x * 1000 + np.arange(int(np.prod(self.sample_shape)), dtype=np.float64).reshape(self.sample_shape)
-        return x.astype(self.dtype)
+        return (x + 500 * getattr(self, "salt", 0)).astype(self.dtype)
+
+
+def twin_readers(rnd, out):
+    """Two readers with equal geometry and different content, same (offset, n), combined in ONE graph
+    (dask.compute of both, concatenate along frequency, difference): each must keep its own data."""
+    import dask
+    kw = dict(signal_type=pb.RadioSignal, sample_rate=1 * u.MHz, start_time=dr.EPOCH,
+              center_freq=1 * u.GHz, chan_bw=1 * u.MHz)
+    r1 = CountingReader((64, 2), np.float64, salt=0, **kw)
+    r2 = CountingReader((64, 2), np.float64, salt=1, **dict(kw, center_freq=1.002 * u.GHz))
+    for j in range(3):
+        off, n = rnd.randint(0, 30), rnd.randint(1, 30)
+        a, b = r1.read(off, n, use_dask=True), r2.read(off, n, use_dask=True)
+        ea, eb = r1.read(off, n), r2.read(off, n)
+        ga, gb = dask.compute(a.data, b.data, scheduler="synchronous")
+        if not (np.array_equal(ga, ea.data) and np.array_equal(gb, eb.data)):
+            out.viol.append(("values:reader-twins", "two dask reads of equal geometry computed in one graph returned "
+                             "the same block for both readers (offset %d, n %d)" % (off, n)))
+        cat = pb.concatenate([a, b], axis="freq").compute(scheduler="threads")
+        ref = pb.concatenate([ea, eb], axis="freq")
+        for c, m, amb in dr.compare_signals(cat, ref, False, "frequency-concatenate of dask reads from twin readers"):
+            out.viol.append(("%s:reader-twins" % c, m))
+        out.note("driver_op:reader-twins")
+    # the sample files with and without lower_sideband: same file, same geometry, different samples
+    return
 
 
 def _reader_event(out, pre_like, z, n0, n1):
@@ -334,6 +379,7 @@ def run_readers(rnd, out, repo, nreads=6):
             got = zd.compute(scheduler=rnd.choice(["synchronous", "threads"]))
             for c, m, amb in dr.compare_signals(got, zn, False, "CountingReader.read(%d, %d, use_dask, chunks=%r)" % (off, n, chunks)):
                 out.viol.append(("%s:reader" % c, m))
+    twin_readers(rnd, out)
     # 2. the repository's sample files through baseband
     data = os.path.join(repo, "tests", "data")
     opens = {"n": 0}
@@ -370,6 +416,17 @@ def run_readers(rnd, out, repo, nreads=6):
                 got = zd.compute(scheduler="threads" if j else "synchronous")
                 for c, m, amb in dr.compare_signals(got, zn, False, "%s.read(%d, %d, use_dask, chunks=%r)" % (name, off, n, chunks)):
                     out.viol.append(("%s:reader" % c, m))
+        p_dada = os.path.join(data, "sample.dada")
+        if os.path.exists(p_dada):
+            import dask
+            ru = pb.readers.BasebandReader(p_dada, signal_type=pb.Signal)
+            rl = pb.readers.BasebandReader(p_dada, signal_type=pb.Signal, lower_sideband=True)
+            au, al = ru.read(3, 9, use_dask=True), rl.read(3, 9, use_dask=True)
+            gu, gl = dask.compute(au.data, al.data, scheduler="synchronous")
+            if not (np.array_equal(gu, ru.read(3, 9).data) and np.array_equal(gl, rl.read(3, 9).data)):
+                out.viol.append(("values:reader-twins", "dask reads of sample.dada with and without lower_sideband, "
+                                 "computed in one graph, do not both equal their eager reads"))
+            out.note("driver_op:reader-sideband-twins")
         # two readers, same offsets, combined in one graph: the pure=True keys must differ
         if len(readers) >= 1:
             name, r = readers[0]
